@@ -163,6 +163,7 @@ pub fn run(tier: Tier) -> i32 {
         NodeSys::new("slots1-2-parent-rule", x3.clone(), 0, alpha_slots12(), 0),
         NodeSys::new("window-boundary-3-4-5", x3.clone(), 0, alpha_boundary(), 0),
         NodeSys::new("slot1-fallbacks-lag2", x3.clone(), 0, alpha_fallbacks(), 2),
+        NodeSys::new("slot1-fallbacks-no-lag", x3.clone(), 0, alpha_fallbacks(), 0),
     ];
     {
         // seed state: blocks of slots 1, 2, 3 arrived in order (the node notarized the chain)
@@ -182,13 +183,17 @@ pub fn run(tier: Tier) -> i32 {
     }
     let depth = tier.pick(6, 9);
     // quick: depth bounds chosen so that every system completes its bound (deterministic coverage)
-    let quick_depth = |name: &str| if name.contains("fallbacks") { 6 } else { 4 };
+    let quick_depth = |name: &str| if name.contains("no-lag") { 7 } else if name.contains("fallbacks") { 6 } else { 4 };
     let per_secs = tier.pick(14, 140);
     let mut total = BfsStats::default();
     let mut per = Vec::new();
     let mut samples: Vec<Value> = Vec::new();
     let mut exhaustive_to_depth = true;
+    let only = std::env::var("C05_ONLY").ok();
     for sys in &systems {
+        if only.as_ref().is_some_and(|o| !sys.name.contains(o.as_str())) {
+            continue;
+        }
         let d = if tier == Tier::Quick { quick_depth(&sys.name) } else { depth };
         let limits = BfsLimits::new(d, tier.pick(600_000, 30_000_000), per_secs);
         let st = bfs(sys, &sys.name, &limits, &report);
@@ -210,6 +215,9 @@ pub fn run(tier: Tier) -> i32 {
     // every state is also completed fairly in two orders with the monitors running
     let cluster_depth = tier.pick(3, 6);
     for inner in crate::c02::liveness_systems() {
+        if only.is_some() {
+            continue;
+        }
         let mut live = crate::cluster::LiveSys::new(inner);
         live.own_votes = true;
         let name = format!("cluster/{}", live.inner.name);
